@@ -199,7 +199,7 @@ impl ZerokitMerkleTree for PmTree {
         values: I,
     ) -> Result<()> {
         let v = values.into_iter().collect::<Vec<_>>();
-        if start + v.len() > self.capacity() {
+        if start > self.capacity() || v.len() > self.capacity() - start {
             return Err(Report::msg("provided range exceeds set size"));
         }
         if v.is_empty() {
